@@ -89,10 +89,25 @@ def conv_record(nsx, nsw, mode):
     return rec
 
 
+TLC_INT = 2 ** 30 - 1     # = 3^2 7 11 31 151 331, not of the form 2^a 3^b; TLC's integers are 32 bits wide
+
+
+def _tlc_int(v):
+    """an observed integer as TLC can hold it: beyond +-TLC_INT it is recorded as +-TLC_INT (every length, bin number and size the
+    records are about is below 2^21, so a clamped value fails the clause it is compared in exactly as the original would)"""
+    return int(max(-TLC_INT, min(TLC_INT, v)))
+
+
 def nsoptim_record(n):
     rec = {"kind": "nsoptim", "n": int(n), "v": 0, "exc": ""}
     try:
-        rec["v"] = int(fourier().ns_optim_fft(n))
+        v = int(fourier().ns_optim_fft(n))
+        # a power of two lies in n..2n-1, so no v >= 2n is the least 2^a 3^b not below n: such a value is recorded as 2n, which fails
+        # NsOptimP(n, .) for the same reason (if 2n is of the form at all, a smaller one lies in between).  TLC enumerates n..v-1
+        # to decide the clause: with v = 2^29 for n = 5 it does not come back, and beyond 2^31 it cannot hold the number.
+        rec["v"] = _tlc_int(min(v, 2 * int(n)) if n >= 1 else v)
+        if rec["v"] != v:
+            rec["returned"] = str(v)
     except Exception as e:
         rec["exc"] = type(e).__name__
     return rec
@@ -101,7 +116,8 @@ def nsoptim_record(n):
 def _num(v, scale):
     x = np.asarray(v, dtype=float) * scale
     r = np.round(x)
-    ok = np.isfinite(x) & (np.abs(x - r) <= 1e-6)
+    with np.errstate(invalid="ignore"):
+        ok = np.isfinite(x) & (np.abs(x - r) <= 1e-6) & (np.abs(r) <= TLC_INT)      # (a bin number beyond +-n is no bin of the scale)
     return [int(a) if b else -999999 for a, b in zip(np.where(ok, r, 0), ok)]
 
 
@@ -324,7 +340,7 @@ def numeric(ctx, rng):
                 e = np.inf
                 c = type(ex).__name__
             if not e <= 1e-9:
-                ns = int(f.ns_optim_fft(nsx + nsw))
+                ns = padded(nsx + nsw)          # from the definition: the class of the key must not depend on the helper under test
                 out.append((f"conv:Dense{mode.capitalize()}:{'odd' if ns % 2 else 'even'}-padded",
                             f"convolve(random [3,{nsx}], random [{nsw}], '{mode}') differs from direct convolution "
                             f"(rel. error {e}, padded size {ns})", {"kind": "dense", "nsx": nsx, "nsw": nsw, "mode": mode}))
@@ -496,6 +512,14 @@ def forms(ctx, rng):
         except Exception as ex:
             return f"{type(ex).__name__}: {ex}"[:200]
 
+    def observed(look, what):
+        """decode a value that came back from the library: an exception while doing so means it is not what the clause promises
+        (the description of the failure is the finding; `look` holds nothing but conversions / comparisons of that value)"""
+        try:
+            return look()
+        except Exception as ex:
+            return f"{what} ({type(ex).__name__}: {ex})"[:240]
+
     # ---- convolve ------------------------------------------------------------------------------------------------------
     def direct(x, w, mode):
         x, w = np.asarray(x, dtype=np.float64), np.asarray(w, dtype=np.float64)
@@ -508,11 +532,15 @@ def forms(ctx, rng):
     def conv_err(c, x, w, mode):
         if isinstance(c, str):
             return c
-        c, ref = np.asarray(c), direct(x, w, mode)
-        if mode == "full" and c.shape[-1] == ref.shape[-1] + 1:
-            ref = np.concatenate([ref, np.zeros(ref.shape[:-1] + (1,))], axis=-1)
-        e = rel(c, ref)
-        return None if e <= 1e-9 else f"rel. error {e}, returned shape {c.shape}"
+        ref = direct(x, w, mode)
+
+        def look():     # whatever came back (None, a 0-d / object / string array ...) is compared as a value, never trusted
+            a, r = np.asarray(c), ref
+            if mode == "full" and a.ndim and a.shape[-1] == r.shape[-1] + 1:
+                r = np.concatenate([r, np.zeros(r.shape[:-1] + (1,))], axis=-1)
+            e = rel(a, r)
+            return None if e <= 1e-9 else f"rel. error {e}, returned shape {a.shape}"
+        return observed(look, "the returned value cannot be compared with an array of numbers")
 
     def conv_calls(x, w, label, sc):
         """the four spellings of the mode, the arguments afterwards"""
@@ -591,7 +619,7 @@ def forms(ctx, rng):
         ctx.count(1)
         v = guarded(lambda: f.ns_optim_fft(arg))
         want = smooth_min(int(math.ceil(float(arg))) if not isinstance(arg, int) else arg)
-        ok = not isinstance(v, str) and np.ndim(v) == 0 and int(v) == v and int(v) == want
+        ok = not isinstance(v, str) and observed(lambda: bool(np.ndim(v) == 0 and int(v) == v and int(v) == want), "") is True
         if not ok:
             out.append((f"nsoptim:NsOptim:{klass}", f"ns_optim_fft({arg!r}) [{label}] = {v}, the least 2^a 3^b not below it is {want}",
                         {"kind": "forms", "what": "nsoptim", "arg": repr(arg)}))
@@ -629,7 +657,8 @@ def forms(ctx, rng):
     def fs_case(label, call, n, si, one):
         ctx.count(1)
         r = guarded(call)
-        e = r if isinstance(r, str) else rel(np.asarray(r, dtype=float) * float(si), fs_ref(n, si, one) * float(si))
+        ref = fs_ref(n, si, one) * float(si)
+        e = r if isinstance(r, str) else observed(lambda: rel(np.asarray(r, dtype=float) * float(si), ref), "not an array of frequencies")
         if isinstance(e, str) or not e <= (1e-6 if isinstance(si, np.float32) else 1e-12):
             out.append(("fscale:FScale:argument-forms" if not one else "fscale:FScaleOneSided:argument-forms",
                         f"fscale [{label}] for n={n!r}, si={si!r}, one_sided={one} is not k / (n si): {e}",
@@ -819,10 +848,16 @@ def forms(ctx, rng):
     def cos_err(b0, b1, xs, y, tol=1e-12):
         if isinstance(y, str):
             return y
-        y = np.asarray(y)
-        if y.shape != np.shape(xs):
-            return f"shape {y.shape} for an argument of shape {np.shape(xs)}"
-        xs, y = np.asarray(xs, dtype=np.float64).ravel(), y.astype(np.float64).ravel()
+
+        def look():
+            ya = np.asarray(y)
+            if ya.shape != np.shape(xs):
+                return f"shape {ya.shape} for an argument of shape {np.shape(xs)}"
+            return ya.astype(np.float64).ravel()
+        y = observed(look, "the returned value is not an array of numbers")
+        if isinstance(y, str):
+            return y
+        xs = np.asarray(xs, dtype=np.float64).ravel()
         o = np.argsort(xs, kind="stable")
         xs, y = xs[o], y[o]
         m = 1e-3 * (b1 - b0)
@@ -864,7 +899,9 @@ def forms(ctx, rng):
         xs.flags.writeable = False
         cos_case([b0, b1], xs, "a read-only argument")
         # one taper object used again and again, two tapers alive at once
-        fa, fb = utils.fcn_cosine([b0, b1]), utils.fcn_cosine([b0 + 1, b1 + 7])
+        # (a taper that cannot even be made: the uses below then make it themselves, inside the guard, and report that)
+        fa, fb = guarded(lambda: utils.fcn_cosine([b0, b1])), guarded(lambda: utils.fcn_cosine([b0 + 1, b1 + 7]))
+        fa, fb = (None if isinstance(fa, str) else fa), (None if isinstance(fb, str) else fb)
         xa, xb, xc = np.linspace(lo_, hi_, 90), np.linspace(lo_, hi_ + 9, 31), np.linspace(b0, b1, 7)
         ya = cos_case([b0, b1], xa, "first use of the taper object", "reuse", fn=fa)
         cos_case([b0 + 1, b1 + 7], xb, "a second taper object made before the first was used", "reuse", fn=fb)
